@@ -215,10 +215,18 @@ func c10stable(c *core.Ctx) {
 			}
 		}()
 	}
-	wg.Wait()
+	vname := psVariants[variant]
+	if st, where := core.WaitOrDeadlock(&wg, 10*time.Second, 90*time.Second); st != "done" {
+		if st == "deadlock" {
+			c.Violate(vname+":deadlock", fmt.Sprintf("%s never returns: every goroutine of the scenario is parked for good (%s)", vname, where),
+				map[string]any{"variant": vname, "subscribers": nsub, "publishers": npub, "events_each": per, "timeout_us": timeout.Microseconds()})
+		} else {
+			c.Inconclusive("publish calls did not return within the watchdog (no deadlock proven)")
+		}
+		return
+	}
 	nev := npub * per
 	expected := int64(nsub * nev)
-	vname := psVariants[variant]
 	cls := "S1"
 	if isAsync(variant) {
 		cls = "S2"
@@ -488,7 +496,15 @@ func c10churn(c *core.Ctx, kind string) {
 			}
 		}()
 	}
-	pwg.Wait()
+	if st, where := core.WaitOrDeadlock(&pwg, 10*time.Second, 90*time.Second); st != "done" {
+		if st == "deadlock" {
+			c.Violate(vname+":deadlock", fmt.Sprintf("%s never returns while subscriptions come and go: every goroutine of the scenario is parked for good (%s)", vname, where),
+				map[string]any{"variant": vname, "stable_subscribers": nstable, "churners": nchurn, "publishers": npub, "events_each": per})
+		} else {
+			c.Inconclusive("publish calls did not return within the watchdog (no deadlock proven)")
+		}
+		return
+	}
 	close(stopChurn)
 	wg.Wait()
 	nev := npub * per
